@@ -20,7 +20,7 @@ def check_case(acc, case, monitors):
     done, mm = run_case(acc, case, monitors)
     if mm is None:
         nmeta = sum(1 for o in done if o[0] == "meta")
-        nstruct = sum(1 for o in done if o[0] in ("copy2", "copyobj", "move", "del", "copy") or (o[0] == "at"))
+        nstruct = sum(1 for o in done if o[0] in ("copy2", "copyobj", "copyfrom", "move", "del", "copy") or (o[0] == "at"))
         acc.case([case["driver"], done], nontrivial=nmeta >= 2 and nstruct >= 1)
         if acc.evaluations % 120 == 1:
             acc.sample({"driver": case["driver"], "ops": done[:14]})
